@@ -201,7 +201,10 @@ impl InnerInMemory {
         record_type: RecordType,
         lookup_options: LookupOptions,
     ) -> Option<Arc<RecordSet>> {
-        // Check for delegation
+        // Check for delegation. The walk goes all the way up to the apex: the cut closest to
+        // the apex wins, NS records further down are occluded by it (RFC 1034 section 4.3.2
+        // step 3 matches down from the apex).
+        let mut referral = None;
         let mut search_name = name.clone();
         while !search_name.is_root() {
             let ns_key = RrKey::new(search_name.clone(), RecordType::NS);
@@ -215,8 +218,8 @@ impl InnerInMemory {
                 // Request is for a DS record and we're at the delegation point.
                 // Don't return a referral, DS record resides in the parent zone.
                 (Some(_), false) if ds_exact => {}
-                // Return a delegation point: NS exists without SOA.
-                (Some(ns), false) => return Some(ns.clone()),
+                // A delegation point: NS exists without SOA.
+                (Some(ns), false) => referral = Some(ns.clone()),
                 // Zone apex: NS with SOA - we're at the top of the zone
                 (Some(_), true) => break,
                 // No NS, keep walking up.
@@ -224,6 +227,10 @@ impl InnerInMemory {
             }
 
             search_name = search_name.base_name();
+        }
+
+        if referral.is_some() {
+            return referral;
         }
 
         // this range covers all the records for any of the RecordTypes at a given label.
